@@ -20,6 +20,8 @@ pub struct Case {
     /// (line position, kind) of rejected lines to insert
     pub rejects: Vec<(u8, u8)>,
     pub cfg: (u8, u8, Vec<u8>),
+    /// lines of an earlier session on the same environment (0 = fresh environment)
+    pub history: u8,
 }
 
 pub fn strategy() -> impl Strategy<Value = Case> {
@@ -28,12 +30,17 @@ pub fn strategy() -> impl Strategy<Value = Case> {
         prop::collection::vec(prop::bool::weighted(0.6), 14),
         prop::collection::vec((any::<u8>(), 0u8..8), 0..3),
         (1u8..=3, 0u8..6, prop::collection::vec(any::<u8>(), 0..150)),
+        prop_oneof![2 => Just(0u8), 3 => 1u8..5],
     )
-        .prop_map(|(steps, breaks, rejects, cfg)| Case { steps, breaks, rejects, cfg })
+        .prop_map(|(steps, breaks, rejects, cfg, history)| Case { steps, breaks, rejects, cfg, history })
 }
 
 #[derive(Clone, Copy, PartialEq, Debug)]
 enum K {
+    /// `#'int -> ('int | 'bin)`
+    UFn,
+    /// a value of type 'int | 'bin
+    UVal,
     Int,
     Bin,
     Pair,
@@ -84,6 +91,7 @@ pub struct StepText {
     pub alias_only: bool,
     pub uses_prev: bool,
     pub import: bool,
+    pub type_test: bool,
 }
 
 pub const MODULE: &str = "[k: 5, inc: #'int { [~, 1] __integer_add__ }, tag: 0xbeef]";
@@ -128,7 +136,7 @@ pub fn render_steps(dice: &[[u8; 4]]) -> Vec<StepText> {
     for (i, d) in dice.iter().enumerate() {
         let mut st = StepText::default();
         let mut kind = K::Ok;
-        let choice = d[0] % 28;
+        let choice = d[0] % 31;
         let text = match choice {
             1 if !env.of(K::Int).is_empty() => {
                 let v = pick(d[1], &env.of(K::Int)).0.clone();
@@ -214,6 +222,24 @@ pub fn render_steps(dice: &[[u8; 4]]) -> Vec<StepText> {
                     st.destructure = true;
                     "(k, inc) = %m1".to_string()
                 }
+            }
+            28 => {
+                let n = env.fresh("fu");
+                env.bind(&n, K::UFn, i);
+                format!("{n} = #'int {{ | =0 => 0x00 | =n => n }}")
+            }
+            29 if !env.of(K::UFn).is_empty() => {
+                let fu = pick(d[1], &env.of(K::UFn)).0.clone();
+                let n = env.fresh("u");
+                env.bind(&n, K::UVal, i);
+                format!("{n} = {} {fu}", d[2] % 3)
+            }
+            30 if !env.of(K::UVal).is_empty() => {
+                // possibly the first run-time test against 'int / 'bin in the session
+                kind = K::Int;
+                st.type_test = true;
+                let u = pick(d[1], &env.of(K::UVal)).0.clone();
+                if d[2] % 2 == 0 { format!("{u} {{ | ='int => 1 | ='bin => 2 }}") } else { format!("{u} {{ | ='bin => 2 | ='int => 1 }}") }
             }
             // expression steps
             14 | 24 | 25 => {
@@ -345,6 +371,7 @@ pub struct Facts {
     pub old_capture: bool,
     pub uses_prev_across_lines: bool,
     pub import: bool,
+    pub type_test: bool,
     pub alias_only_line: bool,
     pub heap_checks: u64,
     pub inconclusive: bool,
@@ -361,6 +388,18 @@ pub fn check(c: &Case, reg: &qrun::Registry) -> Result<Facts, (String, String)> 
         Ok(r) => r,
         Err(e) => return Err(("harness".into(), e)),
     };
+    // an earlier session on the same environment (constants, tuples and functions already merged)
+    const HISTORY: [&str; 4] = ["1000", "hx = 77, ht = P[x: hx, y: 0xdead]", "[hx, 5000, ht]", "hf = #'int { [~, 31337] __integer_add__ }, 4 hf"];
+    if c.history > 0 {
+        for l in HISTORY.iter().take(c.history as usize) {
+            if let Err(e) = rs.eval(l) {
+                return Err(("harness".into(), format!("history line {l}: {e}")));
+            }
+        }
+        if let Err(e) = rs.restart(&modules(), reg) {
+            return Err(("harness".into(), e));
+        }
+    }
     let mut f = Facts::default();
     // line index of each step
     let mut line_of_step = vec![0usize; s.steps.len()];
@@ -416,6 +455,7 @@ pub fn check(c: &Case, reg: &qrun::Registry) -> Result<Facts, (String, String)> 
             for st in &s.steps[..=*last_step] {
                 f.shadow_or_destructure |= st.shadow || st.destructure;
                 f.import |= st.import;
+                f.type_test |= st.type_test;
             }
             // closures on this line that captured a binding from >= 2 lines earlier
             let first_step = s.lines[..li].iter().rev().find(|l| !l.1).map(|l| l.2 + 1).unwrap_or(0);
@@ -506,11 +546,17 @@ pub fn run(ctx: &Ctx) -> i32 {
                     if f.import {
                         stats.class("import");
                     }
+                    if f.type_test {
+                        stats.class("first-type-test-on-an-older-type");
+                    }
                     if f.alias_only_line {
                         stats.class("type-alias-only-line");
                     }
                     if case.cfg.0 >= 2 {
                         stats.class("2+-workers");
+                    }
+                    if case.history > 0 {
+                        stats.class("environment-with-an-earlier-session");
                     }
                     if f.shadow_or_destructure && f.line_after_rejected && f.old_capture {
                         let s = session(case);
@@ -540,12 +586,12 @@ pub fn run(ctx: &Ctx) -> i32 {
         ctx,
         stats: &stats,
         violations,
-        rule: "histories of 3-13 steps drawn from: integer/binary/pair/record bindings built from earlier bindings, shadowing, destructuring (positional, partial, star, named), closures with and without a parameter capturing earlier bindings, a type alias and a function over it, an import (whole module or destructured), and expression steps (values, field access, calls, closure values, the previous result through `~`); the steps are split into lines at generated places and 0-2 rejected lines (parse error, undefined variable, type error, a binding followed by a type error, re-bindings followed by a type error, an alias followed by an undefined variable, an import followed by an error) are inserted; the session runs in the simulator (1-3 workers, generated quantum and schedule) with the C06 heap invariants after every worker step. Oracle: every accepted line's value equals the value of the same steps compiled and run as one program; after every line — accepted or rejected — get_variables() equals the single program's bindings and request_variable(name) equals `&name` appended to the single program. evaluations = lines; non-trivial = a history with shadowing/destructuring, a line after a rejected line and a closure that captured a binding from >= 2 lines earlier; distinct by transcript".into(),
+        rule: "histories of 3-13 steps drawn from: integer/binary/pair/record bindings built from earlier bindings, shadowing, destructuring (positional, partial, star, named), closures with and without a parameter capturing earlier bindings, a type alias and a function over it, an import (whole module or destructured), a function returning 'int | 'bin, a variable holding such a value and a later run-time type test on it, and expression steps (values, field access, calls, closure values, the previous result through `~`); the steps are split into lines at generated places and 0-2 rejected lines (parse error, undefined variable, type error, a binding followed by a type error, re-bindings followed by a type error, an alias followed by an undefined variable, an import followed by an error) are inserted; the environment is fresh or has already served an earlier session of 1-4 lines; the session runs in the simulator (1-3 workers, generated quantum and schedule) with the C06 heap invariants after every worker step. Oracle: every accepted line's value equals the value of the same steps compiled and run as one program; after every line — accepted or rejected — get_variables() equals the single program's bindings and request_variable(name) equals `&name` appended to the single program. evaluations = lines; non-trivial = a history with shadowing/destructuring, a line after a rejected line and a closure that captured a binding from >= 2 lines earlier; distinct by transcript".into(),
         assumptions: vec![
             "no step evaluates to nil (generated steps never do), so the single program is not short-circuited".into(),
             "function values are compared by their captured values, not by index".into(),
         ],
-        required_classes: vec!["shadowing-or-destructuring", "line-after-a-rejected-line", "closure-captures-binding-from-2+-lines-earlier", "previous-result-flows-into-next-line", "import", "type-alias-only-line", "2+-workers", "variables-compared", "rejected-lines"],
+        required_classes: vec!["shadowing-or-destructuring", "line-after-a-rejected-line", "closure-captures-binding-from-2+-lines-earlier", "previous-result-flows-into-next-line", "import", "type-alias-only-line", "2+-workers", "environment-with-an-earlier-session", "first-type-test-on-an-older-type", "variables-compared", "rejected-lines"],
         started,
         technique: "proptest-generated REPL histories (steps x line splits x rejected lines x schedules) in the deterministic simulator; oracle = the same steps compiled and run as one program (per-line values, variable set and variable values) + heap invariants",
     })
@@ -554,7 +600,7 @@ pub fn run(ctx: &Ctx) -> i32 {
 fn case_json(c: &Case) -> serde_json::Value {
     let s = session(c);
     json!({"kind": "c11", "steps": c.steps.iter().map(|d| d.to_vec()).collect::<Vec<_>>(), "breaks": c.breaks, "rejects": c.rejects.iter().map(|(a, b)| vec![*a, *b]).collect::<Vec<_>>(),
-        "workers": c.cfg.0, "qi": c.cfg.1, "schedule": hex(&c.cfg.2), "lines": s.lines.iter().map(|(l, r, _)| json!({"line": l, "rejected": r})).collect::<Vec<_>>()})
+        "workers": c.cfg.0, "qi": c.cfg.1, "history": c.history, "schedule": hex(&c.cfg.2), "lines": s.lines.iter().map(|(l, r, _)| json!({"line": l, "rejected": r})).collect::<Vec<_>>()})
 }
 
 pub fn replay(payload: &serde_json::Value) -> Result<(), String> {
@@ -564,7 +610,7 @@ pub fn replay(payload: &serde_json::Value) -> Result<(), String> {
     }).collect();
     let breaks: Vec<bool> = payload["breaks"].as_array().map(|a| a.iter().map(|x| x.as_bool().unwrap_or(true)).collect()).unwrap_or_default();
     let rejects: Vec<(u8, u8)> = payload["rejects"].as_array().map(|a| a.iter().map(|x| (x[0].as_u64().unwrap_or(0) as u8, x[1].as_u64().unwrap_or(0) as u8)).collect()).unwrap_or_default();
-    let c = Case { steps, breaks, rejects, cfg: (payload["workers"].as_u64().unwrap_or(1) as u8, payload["qi"].as_u64().unwrap_or(5) as u8, unhex(payload["schedule"].as_str().unwrap_or(""))) };
+    let c = Case { steps, breaks, rejects, cfg: (payload["workers"].as_u64().unwrap_or(1) as u8, payload["qi"].as_u64().unwrap_or(5) as u8, unhex(payload["schedule"].as_str().unwrap_or(""))), history: payload["history"].as_u64().unwrap_or(0) as u8 };
     let reg = qrun::registry();
     for (l, r, _) in &session(&c).lines {
         println!("  {}{l}", if *r { "x " } else { "  " });
